@@ -143,9 +143,9 @@ func universe(r *rand.Rand) []interface{} {
 }
 
 var diffVerbs = []string{"v", "v", "v", "s", "d", "q", "x", "X", "t", "b", "o", "O", "c", "U", "e", "E", "f", "F", "g", "G", "p", "T", "Z", "é", "!", "z", "%"}
-var diffFlags = []string{"", "", "", "+", "-", "#", " ", "0", "+#", "#0", "+ ", "-#", "# ", "+#0 "}
-var diffWidths = []string{"", "", "", "1", "5", "12", "*", "[2]*", "[1]", "[3]", "[9]"}
-var diffPrecs = []string{"", "", "", ".", ".0", ".2", ".10", ".*", ".[1]*"}
+var diffFlags = []string{"", "", "", "+", "-", "#", " ", "0", "0", "+#", "#0", "+0", "+ ", "-#", "# ", "+#0 "}
+var diffWidths = []string{"", "", "", "1", "5", "12", "70", "100", "1000", "*", "[2]*", "[1]", "[3]", "[9]"}
+var diffPrecs = []string{"", "", "", ".", ".0", ".2", ".10", ".80", ".*", ".[1]*"}
 var diffLits = []string{"", "", " ", "lit", "‹", "›x", "\n", "é", "%%", "a‹b›c", "\xE2\x80"}
 
 func randFormat(r *rand.Rand) string {
@@ -307,7 +307,7 @@ func fmtdiffDrive(args []string) {
 	var jobs []job
 	for i := range u0 {
 		for _, v := range []string{"v", "s", "d", "q", "x", "X", "t", "b", "o", "O", "c", "U", "e", "f", "g", "p", "T", "Z"} {
-			for _, fl := range []string{"", "+", "#", "-8", "08", "+#", " .3", "12.1", "#-6.2"} {
+			for _, fl := range []string{"", "+", "#", "-8", "08", "+#", " .3", "12.1", "#-6.2", "070", "0100", "+072", "#090", "-90", ".70", "090.80"} {
 				if strings.Contains(fl, "0") && strings.Contains(fl, "-") {
 					continue
 				}
